@@ -159,6 +159,7 @@ def run(ctx):
     if len(muts) < 10:
         raise core.MachineryError("vacuous model: mutators seen %s" % muts)
     check_independent_results(ctx)
+    check_redefinition(ctx)
     resc = core.run_tlc("MC_C12c", "MC_C12c_%s.cfg" % ctx.tier, timeout=600, workers=4)
     core.tlc_must_pass(resc, "MC_C12c")
     ctx.add_tlc(resc, "container histories: reads, element additions, in-place element edits, sampling changes")
@@ -288,6 +289,44 @@ def check_container(ctx, cs):
     return True
 
 
+def check_redefinition(ctx):
+    """one object given another degree and control net on the SAME knot vector and evaluated at the same parameters as before"""
+    from geomdl import BSpline
+    ctx.full = {"redefinition": True}
+    kv = [0.0, 0.125, 0.25, 0.375, 0.5, 0.625, 0.75, 0.875, 1.0]
+    defs = [(3, [[float(i), float(i * i % 4)] for i in range(5)]), (2, [[float(i), float((3 * i) % 5)] for i in range(6)]), (1, [[float(i), float(i % 2)] for i in range(7)])]
+    small = {"knot_vector": kv, "degrees": [d for d, _ in defs]}
+    ctx.count(("redefinition",), sample=small)
+    try:
+        c = BSpline.Curve()
+        for deg, P in defs + defs[:1]:
+            c.degree = deg
+            c.ctrlpts = [list(q) for q in P]
+            c.knotvector = list(kv)
+            c.sample_size = 5
+            tw = BSpline.Curve()
+            tw.degree = deg
+            tw.ctrlpts = [list(q) for q in P]
+            tw.knotvector = list(kv)
+            tw.sample_size = 5
+            lo, hi = c.domain
+            u = (lo + hi) / 2.0 if lo <= 0.5 <= hi else lo
+            # (the first evaluation under the new definition uses the very parameters of the last evaluation under the old one)
+            first = c.evaluate_single(0.5)
+            c.evaluate(start=0.375, stop=0.625)
+            tw.evaluate(start=0.375, stop=0.625)
+            mid_ok = close_seq([list(x) for x in c.evalpts], [list(x) for x in tw.evalpts], 1e-12)
+            c.evaluate()
+            tw.evaluate()
+            last = c.evaluate_single(0.5)
+            if not close_seq(first, tw.evaluate_single(0.5), 1e-12) or not mid_ok or not close_seq(last, first, 1e-12) or \
+                    not close_seq([list(x) for x in c.evalpts], [list(x) for x in tw.evalpts], 1e-12) or not close_seq(c.evaluate_single(0.5), tw.evaluate_single(0.5), 1e-12):
+                ctx.violate("BSpline.Curve.evaluate", ["redefined_with_other_degree", "degree=%d" % deg], small, {"object": c.evaluate_single(0.5), "fresh_twin": tw.evaluate_single(0.5)})
+                break
+    except Exception as e:
+        ctx.violate("BSpline.Curve.evaluate", ["redefined_with_other_degree", "raises"], small, {"exception": repr(e)[:200]})
+
+
 def check_independent_results(ctx):
     """operations called without the in-place option return an object of their own even when the map is the identity (zero vector,
     angle 0 or 360, factor 1): editing the result leaves the input alone"""
@@ -337,6 +376,8 @@ def replay(ctx, v):
     if "ver" in full:
         check_container(ctx, full)
         return
+    if "redefinition" in full:
+        return check_redefinition(ctx)
     if "independent_results" in full:
         return check_independent_results(ctx)
     if "cache_discipline" in full:
